@@ -87,3 +87,146 @@ Theorem C14_tt_bounds : forall chnr shuf1,
   (forall c l, Permutation l (shuf1 c l)) ->
   forall ns r, Forall (fun k => 1 <= k) ns -> Forall (inb ns) (fst (fst (sample_tt chnr shuf1 ns r))).
 Proof. exact tt_bounds. Qed.
+
+(* non-vacuity of the generator contracts above + what the integer samplers compute with such a generator *)
+Example C14_int_samplers_example :
+  let chnr := fun (c k s : nat) => seq 0 s in
+  let shuf1 := fun (c : nat) (l : list nat) => rev l in
+  let chu := fun (c k m : nat) => repeat (k - 1) m in
+  (forall c k s, s <= k -> length (chnr c k s) = s /\ NoDup (chnr c k s) /\ Forall (fun x => x < k) (chnr c k s)) /\
+  (forall c l, Permutation l (shuf1 c l)) /\
+  (forall c k m, 1 <= k -> length (chu c k m) = m /\ Forall (fun x => x < k) (chu c k m)) /\
+  sample_lhs chnr shuf1 0 [2; 3] 5 = [[0; 1]; [1; 0]; [1; 2]; [0; 1]; [0; 0]] /\
+  sample_tt chnr shuf1 [2; 3; 2] 2 =
+    ([[0; 1; 1]; [0; 0; 0]; [1; 1; 1]; [1; 0; 0];
+      [1; 0; 1]; [1; 0; 0]; [0; 0; 1]; [0; 0; 0]; [1; 1; 1]; [1; 1; 0]; [0; 1; 1]; [0; 1; 0];
+      [1; 2; 1]; [1; 2; 0]; [0; 2; 1]; [0; 2; 0];
+      [1; 1; 0]; [0; 0; 0]; [1; 1; 1]; [0; 0; 1]], [0; 4; 16; 20], [2; 2; 1]) /\
+  sample_rand chu [2; 3] 2 = Ok [[1; 2]; [1; 2]].
+Proof. exact int_samplers_example. Qed.
+
+(* ---- sample: shape [m, d] and bounds for ANY tensor (signed entries, any ranks) ---- *)
+Theorem C14_sample_in_bounds : forall T (K : ops T), field_laws K -> forall ch, choice_ok ch ->
+  forall Y m u II P, sample K ch Y m u = Ok (II, P) -> length II = m /\ Forall (inb (shape Y)) II.
+Proof. exact @sample_in_bounds. Qed.
+
+(* a concrete non-negative tensor [[3, 2, 2], [3, 3, 0]] over Qc: hypotheses satisfiable, products 0, 3/13, 3/13 *)
+Example C14_sample_example :
+  chain 1 ex_Y 1 /\ (forall idx, inb (shape ex_Y) idx -> nn OQc (get OQc ex_Y idx)) /\
+  exists P : list (list (list Qc)),
+    sample OQc (ex_ch [[1; 1; 0]; [2]; [1]; [0]]) ex_Y 3 (exq 0) = Ok ([[1; 2]; [1; 1]; [0; 0]], P) /\
+    map (fun r => qshow (lprod OQc (along (exq 0) (fst r) (snd r)))) (combine [[1; 2]; [1; 1]; [0; 0]] P)
+      = [(0, 1); (3, 13); (3, 13)]%Z /\
+    qshow (total OQc ex_Y) = (13, 1)%Z.
+Proof. exact sample_example. Qed.
+
+(* ---- sample_square ----
+   Zt is the tensor the code obtains from orthogonalize(Y, 0): its cores 1..d-1 have orthonormal rows in the
+   right unfolding (row_orth; contract of property C04, validated numerically on every recorded call).
+   One drawn row (idx, Pj) is sq_row_ok when idx is inside the bounds, Pj consists of d distributions and the
+   product of their entries along idx is entry^2 / ||Zt||^2. *)
+Theorem C14_row_orth_def : forall T (K : ops T) G, row_orth K G <->
+  forall a a', a < cr1 G -> a' < cr1 G ->
+    bsum K (cn G) (fun i => bsum K (cr2 G) (fun b => omul K (cget K G a i b) (cget K G a' i b)))
+    = if Nat.eqb a a' then o1 K else o0 K.
+Proof. intros; apply iff_refl. Qed.
+Theorem C14_sq_row_ok_def : forall T (K : ops T) Zt idx Pj, sq_row_ok K Zt idx Pj <->
+  inb (shape Zt) idx /\ length Pj = length Zt /\ Forall (fun p => lsum K p = o1 K) Pj /\
+  total2 K Zt <> o0 K /\
+  omul K (lprod K (along (o0 K) idx Pj)) (total2 K Zt) = sq K (get K Zt idx) /\
+  lprod K (along (o0 K) idx Pj) = odiv K (sq K (get K Zt idx)) (total2 K Zt).
+Proof. intros; apply iff_refl. Qed.
+Theorem C14_total2_def : forall T (K : ops T) Y,
+  total2 K Y = msum K (shape Y) (fun idx => omul K (get K Y idx) (get K Y idx)).
+Proof. intros; reflexivity. Qed.
+Theorem C14_attempt_ok_def : forall T (K : ops T) Zt att, attempt_ok K Zt att <->
+  length (fst att) = length (snd att) /\
+  forall j, j < length (fst att) -> sq_row_ok K Zt (nth j (fst att) []) (nth j (snd att) []).
+Proof. intros; apply iff_refl. Qed.
+
+(* every generator (choice below len(p), shuffle a permutation), every Zt with d >= 1 meeting the contract, every
+   m, unique, m_fact, max_rep: if sample_square returns (II, atts) then II has m rows inside the bounds, the rows are
+   pairwise distinct when unique, they all come from the last attempt, and EVERY row drawn in EVERY attempt
+   (restarts included) satisfies the chain identity prod = entry^2 / ||Zt||^2. *)
+Theorem C14_square_chain : forall T (K : ops T), rng K -> field_laws K -> forall ch, choice_ok ch ->
+  forall shufr, shuffle_ok shufr -> forall Zt m unique m_fact max_rep II atts,
+  chain 1 Zt 1 -> Forall (row_orth K) (tl Zt) ->
+  sample_square K ch shufr Zt m unique m_fact max_rep = Ok (II, atts) ->
+  length II = m /\ Forall (inb (shape Zt)) II /\ (unique = true -> NoDup II) /\
+  atts <> [] /\ Forall (attempt_ok K Zt) atts /\
+  (forall x, In x II -> In x (fst (last atts ([], [])))).
+Proof. exact @square_chain. Qed.
+
+(* the same identity about the tensor Y that was orthogonalised: Y = c * Zt entrywise (c = 2^p of use_stab) *)
+Theorem C14_square_chain_scaled : forall T (K : ops T), rng K -> field_laws K ->
+  forall Y Zt c idx Pj, shape Y = shape Zt ->
+  (forall idx0, inb (shape Zt) idx0 -> get K Y idx0 = omul K c (get K Zt idx0)) ->
+  sq_row_ok K Zt idx Pj ->
+  omul K (lprod K (along (o0 K) idx Pj)) (total2 K Y) = sq K (get K Y idx) /\
+  (total2 K Y <> o0 K -> lprod K (along (o0 K) idx Pj) = odiv K (sq K (get K Y idx)) (total2 K Y)).
+Proof. exact @square_chain_scaled. Qed.
+
+(* the restart recursion `sample_square(Y, m, True, seed, 2*m_fact, max_rep-1)` is a fuelled loop in the model;
+   the fuel is always sufficient *)
+Theorem C14_square_terminates : forall T (K : ops T) ch shufr Zt m unique m_fact max_rep,
+  sample_square K ch shufr Zt m unique m_fact max_rep <> Err OutOfFuel.
+Proof. exact @sample_square_terminates. Qed.
+
+(* a concrete Zt over Qc with an orthonormal second core: a successful unique run and the ValueError exit *)
+Example C14_square_example :
+  chain 1 ex_Z 1 /\ Forall (row_orth OQc) (tl ex_Z) /\ qshow (total2 OQc ex_Z) = (6, 1)%Z /\
+  (exists atts, sample_square OQc (ex_ch [[0; 1; 1; 0]; [0]; [0]; [1]; [0]]) (fun _ l => rev l) ex_Z 2 true 2 0%Z
+               = Ok ([[1; 1]; [1; 0]], atts)) /\
+  sample_square OQc (ex_ch [[0; 0]; [0]; [0]; [0; 0; 0; 0]; [0]; [0]; [0]; [0]]) (fun _ l => l) ex_Z 2 true 1 0%Z
+               = Err ValueError.
+Proof. exact square_example. Qed.
+
+(* ---- sample returns (progress) ----
+   With unsert = 0, a non-negative tensor with non-zero total and a generator that never returns an index of
+   probability zero (choice_pos), sample does not raise: it returns some (II, P) (to which C14_sample_chain applies). *)
+Theorem C14_sample_returns : forall T (K : ops T), rng K -> field_laws K -> order_laws K ->
+  forall ch, choice_ok ch -> choice_pos K ch -> forall Y m, Y <> [] ->
+  chain 1 Y 1 -> (forall idx, inb (shape Y) idx -> nn K (get K Y idx)) -> total K Y <> o0 K ->
+  exists II P, sample K ch Y m (o0 K) = Ok (II, P).
+Proof. exact @sample_returns. Qed.
+(* a generator meeting both contracts exists (first index of non-zero probability) *)
+Example C14_choice_contract_example :
+  choice_ok (fun _ _ : nat => first_nz OQc) /\ choice_pos OQc (fun _ _ : nat => first_nz OQc) /\
+  ex_Y <> [] /\ total OQc ex_Y <> o0 OQc.
+Proof. exact first_nz_contract_Qc. Qed.
+
+(* ---- sample_rand_poi: shape [m, d]; entry (j, i) is one of the values uniform(a_i, b_i, m) returned ---- *)
+Theorem C14_sample_rand_poi_shape : forall T (K : ops T) unif (inside : T -> T -> T -> Prop),
+  (forall c lo hi m, length (unif c lo hi m) = m /\ Forall (inside lo hi) (unif c lo hi m)) ->
+  forall a b m, length a = length b ->
+  match sample_rand_poi K unif a b m with
+  | Ok X => a <> [] /\ length X = m /\
+            forall j, j < m -> length (nth j X []) = length a /\
+              forall i, i < length a -> inside (nth i a (o0 K)) (nth i b (o0 K)) (nth i (nth j X []) (o0 K))
+  | Err e => a = [] /\ e = ValueError
+  end.
+Proof. exact @sample_rand_poi_shape. Qed.
+
+(* ---- every vector handed to choice has non-negative entries (so, with the sums above, it is a distribution) ----
+   For ANY tensor and ANY generator (np.maximum(p, 0) in sample, sums of squares in sample_square); needs two more
+   order laws: a/b >= 0 for a, b >= 0 and a*a >= 0 (proved for Qc). *)
+Theorem C14_sample_probs_nonneg : forall T (K : ops T), field_laws K -> order_laws2 K ->
+  forall ch Y m u II P, sample K ch Y m u = Ok (II, P) -> Forall (Forall (Forall (nn K))) P.
+Proof. exact @sample_probs_nonneg. Qed.
+Theorem C14_square_probs_nonneg : forall T (K : ops T), field_laws K -> order_laws2 K ->
+  forall ch shufr Zt m unique m_fact max_rep II atts,
+  sample_square K ch shufr Zt m unique m_fact max_rep = Ok (II, atts) ->
+  Forall (fun att => Forall (Forall (Forall (nn K))) (snd att)) atts.
+Proof. exact @square_probs_nonneg. Qed.
+Example C14_laws2_Qc : order_laws2 OQc.
+Proof. exact OQc_order_laws2. Qed.
+
+(* ---- sample_square returns or raises ValueError (progress) ----
+   Given the orthogonality contract, ||Zt||^2 <> 0 and a generator that never returns an index of probability zero,
+   every attempt draws all its rows; the only exception left is the ValueError of the unique-rows restart logic. *)
+Theorem C14_square_returns : forall T (K : ops T), rng K -> field_laws K ->
+  forall ch, choice_ok ch -> choice_pos K ch -> forall shufr Zt m unique m_fact max_rep,
+  Zt <> [] -> chain 1 Zt 1 -> Forall (row_orth K) (tl Zt) -> total2 K Zt <> o0 K ->
+  (exists II atts, sample_square K ch shufr Zt m unique m_fact max_rep = Ok (II, atts)) \/
+  sample_square K ch shufr Zt m unique m_fact max_rep = Err ValueError.
+Proof. exact @square_returns. Qed.
